@@ -90,3 +90,6 @@ pub fn delay_point(name: &'static str) {
 pub fn delay_hits() -> u64 {
     DELAY_HITS.load(Ordering::Relaxed)
 }
+
+/// Re-export of the crate-private path-suffix index so that it can be monitored in isolation.
+pub use crate::debugger::verif_reexport::PathSearchIndex;
